@@ -68,6 +68,13 @@ func cmdSelectors(args []string) {
 		faithful = err == nil && len(r.Names()) == len(names)-1 && !contains(r.Names(), n)
 		emit("name", "lib-exclude", n, listed, listed, err == nil, faithful)
 		odd := strings.IndexFunc(n, func(r rune) bool { return !(r == '_' || (r >= 'a' && r <= 'z') || (r >= '0' && r <= '9')) }) >= 0
+		if listed && i%7 == int(seed)%7 {
+			// the same listed name given twice (an include list merged from two places, a profile plus an explicit name)
+			r, err = g.Filter(lint.FilterOptions{IncludeNames: []string{n, padded, n}})
+			emit("name", "lib-include-twice", n, listed, listed, err == nil, err == nil && len(r.Names()) == 1 && r.Names()[0] == n)
+			r, err = g.Filter(lint.FilterOptions{ExcludeNames: []string{n, n}})
+			emit("name", "lib-exclude-twice", n, listed, listed, err == nil, err == nil && len(r.Names()) == len(names)-1 && !contains(r.Names(), n))
+		}
 		if cli != "" && (i%cliEvery == int(seed)%cliEvery || !listed || odd) && n != "" { // names with unusual characters always go through the CLI
 			emit("name", "cli-include", n, listed, listed, runCLI("-includeNames", padded), true)
 			emit("name", "cli-exclude", n, listed, listed, runCLI("-excludeNames", padded), true)
